@@ -104,6 +104,10 @@ class QueryPlanner:
             version = name_parts[-1]
             name_parts = name_parts[:-1]
 
+        if len(name_parts) > 2:
+            # database.schema.table: it is a table of a database, not a model of a project
+            return None
+
         name = name_parts[-1]
 
         namespace = None
